@@ -46,7 +46,7 @@ def main():
             "guard": "resolved_verif",
             "enable": "RUSTFLAGS=\"--cfg resolved_verif\" cargo build --offline (in /verif/harness, which path-depends on /repo/crates/*)",
             "baseline_off_cmd": "cd /repo && cargo test --workspace --no-fail-fast --offline",
-            "source_commits": [],
+            "source_commits": ['3d242ac', '05bad66', '9ab9fa4'],
             "add_only": True,
         },
         "engines": [{
